@@ -1,9 +1,9 @@
 SPECIFICATION Spec
 CONSTANTS HourDoesNotZeroMinutes <- Off
           DayMoveKeepsHour <- Off
-          Hour24SoughtLiterally <- Off
-          Week53Everywhere <- On
-          AllowKnownClass <- Off
+          Hour24SoughtLiterally <- On
+          Week53Everywhere <- Off
+          AllowKnownClass <- On
           Shapes = 0
 INVARIANT Refines
 INVARIANT Variant
